@@ -4,7 +4,7 @@ package main
 //
 // Enumerated: selectors = presence/value product of agency {-,A}, route {-,R1,R2}, route
 // type {-,3,99}, direction {-,0,1}, stop {-,S}, trip descriptor {- | trip_id {-,T} x route
-// {-,R1,R2} x direction {-,0,1} x start_time {-,ok} x start_date {-,ok}} = 7 884 selectors.
+// {-,R1,R2} x direction {-,0,1} x start_time {-,ok} x start_date {-,ok} x schedule_relationship {-,CANCELED,SCHEDULED}} = 23 436 selectors.
 // Alerts: every single selector; all ordered pairs over a 120-selector sub-alphabet that
 // contains every interaction class, in one alert and split over two alerts; thorough: all
 // triples over 24 selectors and all pairs (one from the 120, one from all 7 884).
@@ -26,6 +26,7 @@ type selSpec struct {
 	agency, route, rtype, dir, stop int
 	hasTD                           bool
 	tdTrip, tdRoute, tdDir, tdST, tdSD int
+	tdSR                               int // 0 absent, 1 CANCELED, 2 SCHEDULED
 }
 
 func (s selSpec) build() *gtfsrt.EntitySelector {
@@ -65,6 +66,10 @@ func (s selSpec) build() *gtfsrt.EntitySelector {
 		if s.tdSD == 1 {
 			d.StartDate = sp("20240102")
 		}
+		if s.tdSR > 0 {
+			v := []gtfsrt.TripDescriptor_ScheduleRelationship{gtfsrt.TripDescriptor_CANCELED, gtfsrt.TripDescriptor_SCHEDULED}[s.tdSR-1]
+			d.ScheduleRelationship = &v
+		}
 		e.Trip = d
 	}
 	return e
@@ -73,7 +78,7 @@ func (s selSpec) build() *gtfsrt.EntitySelector {
 func (s selSpec) String() string {
 	td := "-"
 	if s.hasTD {
-		td = fmt.Sprintf("{trip=%d route=%d dir=%d st=%d sd=%d}", s.tdTrip, s.tdRoute, s.tdDir, s.tdST, s.tdSD)
+		td = fmt.Sprintf("{trip=%d route=%d dir=%d st=%d sd=%d sr=%d}", s.tdTrip, s.tdRoute, s.tdDir, s.tdST, s.tdSD, s.tdSR)
 	}
 	return fmt.Sprintf("sel{agency=%d route=%d type=%d dir=%d stop=%d td=%s}", s.agency, s.route, s.rtype, s.dir, s.stop, td)
 }
@@ -83,6 +88,7 @@ func genFullSelector(c *Ctx, p string) selSpec {
 	if c.Free(p+"trip", 2) == 1 {
 		s.hasTD = true
 		s.tdTrip, s.tdRoute, s.tdDir, s.tdST, s.tdSD = c.Free(p+"trip.trip_id", 2), c.Free(p+"trip.route", 3), c.Free(p+"trip.direction", 3), c.Free(p+"trip.start_time", 2), c.Free(p+"trip.start_date", 2)
+		s.tdSR = c.Free(p+"trip.schedule_relationship", 3)
 	}
 	return s
 }
@@ -234,7 +240,7 @@ func init() {
 	register(&Check{
 		ID:    "C12",
 		Level: "model_checking",
-		Rule: "full products: all 7 884 single selectors; every GTFS route type 0-7, 11, 12 and five unknown values x plain fields; all 14 400 ordered pairs over a 120-selector sub-alphabet (plain {none,R1,R2,stop,agency} x 12 descriptor classes x own direction) in one alert and split over two alerts; thorough adds all 1 728 000 triples over the 120, all 13 824 triples over 24 selectors (kept as a fast subset) and all pairs (120 x 7 884); all map rotations of the fall-back loop; " +
+		Rule: "full products: all 23 436 single selectors (incl. a schedule relationship on the descriptor); every GTFS route type 0-7, 11, 12 and five unknown values x plain fields; all 14 400 ordered pairs over a 120-selector sub-alphabet (plain {none,R1,R2,stop,agency} x 12 descriptor classes x own direction) in one alert and split over two alerts; thorough adds all 1 728 000 triples over the 120, all 13 824 triples over 24 selectors (kept as a fast subset) and all pairs (120 x 7 884); all map rotations of the fall-back loop; " +
 			"non-trivial = distinct messages with at least one trip descriptor in a selector; oracle = reference normaliser + output invariants",
 		Assumptions: []string{"for descriptors with a route and only part of a start (or a schedule relationship) the route fall-back is neither required nor forbidden", "a route type outside the GTFS list informs nothing"},
 		Scenarios: func(tier string) []*Scenario {
